@@ -67,6 +67,18 @@ CLAIMED = {
         text="For every valid corpus state (D=2..5, both kernels) a ConvexHull is built on an independent copy of the triangulation (own generation counter): its facets must be exactly the facets incident to one cell, form a closed surface with every vertex on the closed inner side (exact), validate() must accept, and find_visible_facets / is_point_outside / is_facet_visible_from_point must equal exact sidedness for every decidable query point. Then every op of the alphabet - inserts (incl. one with 1e200 coordinates that mutates and rolls back), duplicate-UUID insert, removal of every vertex and of an unknown one, flip handles, both repairs, policy setters, mutable-view touch, clone swap, serde swap - is applied to the very object the hull was built from: if the complex changed, or the operation failed after mutating (a failpoint site was reached in record mode) and rolled back, every hull query must report staleness; if nothing changed and the hull still answers, the answers must still be exact.",
         note="Each (state, op) pair uses a serde-rebuilt object so that no sibling's generation bump can mask a missing one (the counter is an Arc shared with clones). Policy setters are not changes to the triangulation (a first version of this check alarmed on them: corrected, see DESIGN.md).",
         design_ref="DESIGN.md section 5 (C11)"),
+    "C13": dict(
+        category="fault_enumeration",
+        technique="exhaustive round trips of enumerated states plus enumeration of every single-field corruption of their JSON documents from a mutation menu, judged by fingerprint equality and an independent Level 1-2 reference",
+        text="Subjects: every valid corpus state (constructed, valid flip-closure states, incremental, after removal) plus bootstrap-phase triangulations (0..D vertices, no cells), a state with vacated slots (remove + insert) and a state with u8 cell data, with i32 vertex data, D=2..5. Each is serialised and deserialised through the Tds route (+ from_tds, both kernels) and the DelaunayTriangulation route (FastKernel, (), ()): equal semantic fingerprint incl. cell UUIDs, ==, identical verdicts of all seven validators, and for general-position sets every single follow-up insert / removal must give equal results on the original and the restored object. Then every single-field mutation of the document from the menu (UUID -> another live / unknown / nil; entry dropped / duplicated; slot version +-1; coordinate -> null / \"Infinity\" / string / other value / another vertex's point; cell vertex list entry removed / unknown / repeated / duplicated / replaced by another live vertex / swapped / copied from another cell; table entries added / dropped; sections emptied) must be rejected, or the loaded value must pass the independent Level 1-2 reference; panics are violations.",
+        note="The harness builds serde_json with float_roundtrip: without it serde_json's float parser can be 1 ulp off, which is not the crate's doing. Known finding: orientation-incoherent documents load (kept for the crate's tamper-detection tests). One genuine defect was repaired (fix: f90e2aa).",
+        design_ref="DESIGN.md section 5 (C13)"),
+    "C16": dict(
+        category="exploration",
+        technique="exhaustive enumeration of boundary-value coordinate alphabets x period vectors through the wrapping functions and the toroidal builder, with exact in-box / congruence / idempotence checks and the C01 reference on the wrapped result",
+        text="Per-axis alphabet of boundary values (-2L, -L-ulp, -L, -1e-20, -0.0, 0, 5e-324, L/3, L/2, L-ulp, L, L+ulp, 2L, +-(1e6 L + 0.3 L), L/4, 5L/4, -3L/4) for L in {1, 0.75, 3, 2^-20} and mixed period vectors through ToroidalSpace::wrap_coord / canonicalize_point (D=1..3): result in the half-open box, congruent to the input, idempotent. All 3-point and a strided enumeration of 4-point (5 in thorough) D=2 sets over that alphabet through the toroidal builder: every result vertex in the box and congruent to its input (UUID, data kept), result passes the independent Level 1-3 + convex embedding reference and the exact Delaunay oracle, and every follow-up insert of an alphabet point is stored wrapped. Periodic (image-point) mode on 5..7-point subsets of a skewed 4x4 grid: when Ok, closed (every neighbour slot filled and reciprocated), Euler characteristic 0 (F = 2V), each input exactly once.",
+        note="A first version judged the periodic quotient by vertex-set face identity, which is wrong for quotients on few vertices (false alarm, corrected: see DESIGN.md). Two genuine defects were repaired (fix: 19ee8cf, 6d9cd9e).",
+        design_ref="DESIGN.md section 4 (C16)"),
     "C15": dict(
         category="model_checking",
         technique="exhaustive enumeration of (valid state, query API, key) triples compared with brute-force face enumeration of the raw cells",
